@@ -60,6 +60,14 @@ func (z *zoo) refill(i int) {
 	if r.Chance(1, 4) {
 		z.X = ref.Bits{Hi: r.U64(), Lo: r.U64()}
 	}
+	// operands that operations single out (+/-1, powers of ten, 2, 1/2, small integers) in an arbitrary
+	// cohort member: domain checks and shortcuts are keyed on particular encodings of these values
+	if r.Chance(1, 6) {
+		z.X = altEncoding(r, distinguishedValue(r))
+	}
+	if r.Chance(1, 6) {
+		z.Y = altEncoding(r, distinguishedValue(r))
+	}
 	switch r.Intn(6) {
 	case 0:
 		z.S = buildLiteral(r, i%997 == 0)
